@@ -413,6 +413,61 @@ def real_sessions(chk, P):
         s.alive_probe("a failed env transfer in run_phase")
         s.alive_probe("a failed env transfer in run_phase (second probe)")
 
+    def queued(s, names):
+        """queue async preloads; returns how many expects are outstanding afterwards"""
+        s.op("p0", lambda: s.ebp.preload_eclasses(OneEclass(names), async_req=True))
+        return len(s.ebp._outstanding_expects) if s.ebp is not None and s.ebp.pid else 0
+
+    def pings_with_outstanding(s):
+        """the TIMED expect (is_responsive: expect("yep!", timeout=10)) issued while asynchronous replies are
+        still queued — directly, through release/request of the processor, inside
+        clear_preloaded_eclasses and inside shutdown_processor: it must queue behind them"""
+        def wrong(what, got):
+            s.oracle.append({"what": what + " while replies to asynchronous requests were still queued: a healthy "
+                                     "daemon is taken for unresponsive / the reply of another request is read as the ping's",
+                             "got": repr(got), "session": s.name,
+                             "last_lines": [f"{k} {t[:80]}" for k, t in s.rec.recs[-10:]]})
+        s.op("c", lambda: s.ebp.clear_preloaded_eclasses())          # forget what is preloaded
+        if not s.ebp.pid:
+            return
+        n1 = queued(s, ["foo", "bar"])
+        v = s.op("a", lambda: s.ebp.is_responsive)
+        if n1 and v is not True:
+            wrong("is_responsive returned %r" % (v,), v)
+        s.alive_probe("an is_responsive ping behind queued async replies")
+        # the pool: release (keeps the processor: no custom fds claimed) and request (pings it)
+        n2 = queued(s, ["baz"])
+        ebp = s.ebp
+        ebp.custom_fds = None
+        P.active_ebp_list.append(ebp)
+        try:
+            P.release_ebuild_processor(ebp)
+            got = []
+            v = s.op("a", lambda: (got.append(P.request_ebuild_processor(userpriv=False, sandbox=False)), got[0] is ebp)[1])
+            if n2 and v is not True:
+                wrong("request_ebuild_processor did not hand the pooled processor back (%r)" % (v,), v)
+            for other in got:
+                if other is not ebp:
+                    try:
+                        other.shutdown_processor(force=True)
+                    except BaseException:  # noqa: BLE001
+                        pass
+        finally:
+            P.drop_ebuild_processor(ebp)
+        if not s.ebp.pid:
+            return
+        s.alive_probe("request_ebuild_processor's ping behind queued async replies")
+        s.op("c", lambda: s.ebp.clear_preloaded_eclasses())
+        n3 = queued(s, ["foo"])
+        v = s.op("c", lambda: s.ebp.clear_preloaded_eclasses())
+        if n3 and v is not True:
+            wrong("clear_preloaded_eclasses returned %r" % (v,), v)
+        if not s.ebp.pid:
+            return
+        s.alive_probe("clear_preloaded_eclasses behind queued async replies")
+        queued(s, ["bar", "baz"])
+        s.op("s", lambda: s.ebp.shutdown_processor(), truth=lambda v: True)
+
     # 1. metadata regen with inherit chains, caching on: async preloads stay outstanding between calls
     s = session("main")
     try:
@@ -439,7 +494,7 @@ def real_sessions(chk, P):
             preload_failed(s)
             env_failure(s)
             keys(s, "b")
-            s.op("s", lambda: s.ebp.shutdown_processor(), truth=lambda v: True)
+            pings_with_outstanding(s)
     finally:
         s.stop()
 
